@@ -181,6 +181,124 @@ TIES = [
     ('ubuf_h', 'libmy/ubuf.h', None, ALL, ['C04', 'C08', 'C09', 'C18']),
 ]
 
+# ---- shared mutable state (C14 / C03): file-scope and function-local variables with static storage in the library
+# sources, and the assignments through pointers to the structures that several threads / iterators share ----------
+LIB_SOURCES = ['libmy/crc32c.c', 'libmy/crc32c-slicing.c', 'libmy/crc32c-sse42.c', 'libmy/heap.c', 'libmy/my_fileset.c',
+               'mtbl/block.c', 'mtbl/block_builder.c', 'mtbl/compression.c', 'mtbl/crc32c_wrap.c', 'mtbl/fileset.c',
+               'mtbl/fixed.c', 'mtbl/iter.c', 'mtbl/merger.c', 'mtbl/reader.c', 'mtbl/sorter.c', 'mtbl/source.c',
+               'mtbl/threadpool.c', 'mtbl/metadata.c', 'mtbl/varint.c', 'mtbl/writer.c',
+               'libmy/ubuf.h', 'libmy/vector.h', 'libmy/my_alloc.h', 'libmy/my_time.h', 'libmy/my_byteorder.h',
+               'mtbl/bytes.h', 'mtbl/mtbl-private.h', 'mtbl/threadpool.h']
+
+def top_level_chunks(src):
+    """[(depth0_text)] pieces of the file outside any braces, split at ';' and at closing braces of depth 1"""
+    out = []; cur = []; depth = 0; i = 0; n = len(src)
+    while i < n:
+        c = src[i]
+        if c in '"\'':
+            j = i + 1
+            while j < n and src[j] != c:
+                j += 2 if src[j] == '\\' else 1
+            if depth == 0: cur.append(src[i:j + 1])
+            i = j + 1; continue
+        if c == '{':
+            if depth == 0: cur.append('{}')
+            depth += 1
+        elif c == '}':
+            depth -= 1
+            if depth == 0 and re.search(r'\)\s*\{\}$', ''.join(cur).strip()):   # end of a function definition
+                out.append(''.join(cur)); cur = []
+        elif depth == 0:
+            if c == ';':
+                out.append(''.join(cur)); cur = []
+            else:
+                cur.append(c)
+        i += 1
+    return out
+
+def object_is_const(decl):
+    """the declared object itself is const (for a pointer: const after the last '*', not a pointer to const)"""
+    if '*' in decl:
+        return bool(re.search(r'\bconst\b', decl[decl.rindex('*'):]))
+    return bool(re.search(r'\bconst\b', decl))
+
+def static_storage(repo):
+    """(file, normalised declaration) of every object with static storage duration that is not const:
+    file-scope variables (static or not) and 'static' locals"""
+    res = []
+    for rel in LIB_SOURCES:
+        try:
+            src = strip_comments(rd(repo, rel))
+        except OSError:
+            res.append((rel, '<missing>')); continue
+        src = re.sub(r'^[ \t]*#[^\n]*(?:\\\n[^\n]*)*', '', src, flags=re.M)     # preprocessor lines (with continuations)
+        for ch in top_level_chunks(src):
+            t = ' '.join(ch.split())
+            if not t or t.endswith('{}') and re.search(r'\)\s*\{\}$', t):
+                continue                                           # function definition
+            if re.match(r'(typedef|struct\s+\w+\s*(\{\})?$|enum\b|union\s+\w+\s*(\{\})?$|extern\b)', t):
+                continue
+            if re.search(r'\)\s*(__attribute__\s*\(\(.*\)\))?$', t) and '=' not in t:
+                continue                                           # function prototype
+            if object_is_const(t.split('=')[0]):
+                continue
+            if re.match(r'(VECTOR_GENERATE|[A-Z_]+\s*\()', t):
+                continue                                           # macro invocations that generate functions
+            res.append((rel, re.sub(r'\s*=.*', '', t)))
+        # static locals
+        for m in re.finditer(r'(?<=[;{}])\s*(static\s+[^;(){}]*?)(=[^;]*)?;', src):
+            d = ' '.join(m.group(1).split())
+            if object_is_const(d):
+                continue
+            if (rel, d) not in res:
+                res.append((rel, d))
+    return res
+
+SHARED_WRITE_FILES = ['mtbl/reader.c', 'mtbl/block.c']
+
+def functions(src):
+    """[(name, signature, body)] of the function definitions of a C file"""
+    out = []
+    for m in re.finditer(r'(?:^|\n)([^\n;{}()#]*\n?[^\n;{}()#]*\b(\w+)\s*\(([^;{}]*)\))\s*\{', src):
+        name = m.group(2)
+        if name in ('if', 'while', 'for', 'switch'):
+            continue
+        i = m.end(); depth = 1
+        while depth and i < len(src):
+            c = src[i]
+            if c == '{': depth += 1
+            elif c == '}': depth -= 1
+            i += 1
+        out.append((name, m.group(3), src[m.end():i - 1]))
+    return out
+
+def struct_writes(repo):
+    """(file, function, struct type, lvalue): assignments / increments through a pointer variable of type struct T *,
+    and fields whose address is taken (&v->f), in the files of SHARED_WRITE_FILES"""
+    res = []
+    for rel in SHARED_WRITE_FILES:
+        try:
+            src = strip_comments(rd(repo, rel))
+        except OSError:
+            res.append((rel, '<missing>', '', '')); continue
+        for name, sig, body in functions(src):
+            types = {}
+            for mm in re.finditer(r'struct\s+(\w+)\s*\*+\s*(?:const\s+)?(\w+)', sig + ';' + body):
+                types.setdefault(mm.group(2), mm.group(1))
+            flat = re.sub(r'\s+', '', body)
+            seen = []
+            for mm in re.finditer(r'(?<![\w>.])(\w+)->((?:\w+|\.|->|\[[^\]]*\])+?)(\+\+|--|(?:[+\-|&^*/%]|<<|>>)?=(?!=))', flat):
+                v, lv = mm.group(1), mm.group(2)
+                seen.append((types.get(v, '?'), v + '->' + lv))
+            for mm in re.finditer(r'(\+\+|--)(\w+)->((?:\w+|\.|->)+)', flat):
+                seen.append((types.get(mm.group(2), '?'), mm.group(2) + '->' + mm.group(3)))
+            for mm in re.finditer(r'&(\w+)->((?:\w+|\.)+)(\[)?', flat):
+                seen.append((types.get(mm.group(1), '?'), '&' + mm.group(1) + '->' + mm.group(2) + ('[]' if mm.group(3) else '')))
+            for ty, lv in seen:
+                if (rel, name, ty, lv) not in res:
+                    res.append((rel, name, ty, lv))
+    return res
+
 def coq_str(s):
     return '"' + s.replace('"', '""') + '"'
 
@@ -241,6 +359,12 @@ def main():
     for name, rel, fn, flt, props in TIES:
         out.append('(* %s: %s *)' % (rel, fn or 'whole file'))
         out.append('Definition TIE_%s : list (nat * string) :=\n  %s.' % (name, coq_list(vals[name])))
+    out.append('(* objects with static storage duration that are not const, in the sources of libmtbl *)')
+    out.append('Definition STATIC_STORAGE : list (string * string) :=\n  [' +
+               ';\n   '.join('(%s, %s)' % (coq_str(f), coq_str(d)) for f, d in static_storage(repo)) + '].')
+    out.append('(* assignments through struct pointers / fields whose address is taken, in reader.c and block.c: (file, function, struct, lvalue) *)')
+    out.append('Definition STRUCT_WRITES : list (string * string * string * string) :=\n  [' +
+               ';\n   '.join('(%s, %s, %s, %s)' % tuple(coq_str(x) for x in w) for w in struct_writes(repo)) + '].')
     ch = write_if_changed(os.path.join(outdir, 'Ties.v'), '\n'.join(out) + '\n')
     missing = [n for n, v in vals.items() if v == [(0, '<missing>')]]
     print('Ties.v %s%s' % ('updated' if ch else 'unchanged', (', functions not found: ' + ', '.join(missing)) if missing else ''))
